@@ -365,7 +365,7 @@ theorem leaf_word (f : Nat) (w : String) (r : List Tok)
     cases r with
     | nil => simp [wordRest]
     | cons tk tl =>
-      cases tk <;> first | exact absurd rfl (h tl).2.2.1 | exact absurd rfl (h tl).2.2.2 | simp [wordRest]
+      cases tk <;> first | exact absurd rfl (h tl).2.1 | exact absurd rfl (h tl).2.2.1 | exact absurd rfl (h tl).2.2.2 | simp [wordRest]
   simp only [leaf, hfn]
   split
   · cases r with
